@@ -1,5 +1,7 @@
 // c06: correspondence harness for VerifyLayoutExpiration (property C06, timestamp component).
 //
+//	c06 gen <out.tsv> <n> [<shards> [zone]]  ("zone": mix for the batches run in child processes with TZ set;
+//	                                   the zone the process runs in is written to <out.tsv>.zone)
 //	c06 gen <out.tsv> <n> [<shards>]   generate about n expiry strings (VERIF_SEED), run the real
 //	                                   VerifyLayoutExpiration on each (clock read before and after) and
 //	                                   time.Parse(ISO8601DateSchema, .) and the property oracle;
@@ -467,6 +469,46 @@ func genOne(r *lib.Rng) gcase {
 	}
 }
 
+// zone batch (the harness is re-run as a child process with TZ set to zones west and east of
+// UTC): the verdict for a "...Z" expiry must not depend on the host's zone, so the interesting
+// instants are those within +-14 h of now.
+var zoneHours = []int{1, 2, 3, 4, 5, 6, 7, 8, 9, 10, 11, 12, 13, 14}
+
+func genZoneNear(r *lib.Rng) string {
+	now := time.Now()
+	var d time.Duration
+	switch r.Intn(4) {
+	case 0:
+		d = time.Duration(zoneHours[r.Intn(len(zoneHours))])*time.Hour + time.Duration(r.Range(-90, 90))*time.Second
+	case 1:
+		d = time.Duration(r.Range(10, 14*3600)) * time.Second
+	case 2:
+		d = time.Duration(r.Range(10, 3600)) * time.Second
+	default:
+		d = time.Duration(r.Range(1, 28)) * 30 * time.Minute
+	}
+	if r.Bool() {
+		d = -d
+	}
+	s := isoT(now.Add(d))
+	switch r.Intn(10) {
+	case 0: // fraction
+		return s[:len(s)-1] + []string{".", ","}[r.Intn(2)] + r.Str("0123456789", 1, 9) + "Z"
+	case 1: // one-digit hour when possible
+		if s[11] == '0' {
+			return s[:11] + s[12:]
+		}
+	}
+	return s
+}
+
+func genZoneOne(r *lib.Rng) gcase {
+	if r.Chance(7, 10) {
+		return gcase{"zone-near-now", genZoneNear(r)}
+	}
+	return genOne(r)
+}
+
 // fixed corpus: runs first in every tier
 var corpus = []string{"", "Z", "2030-01-01T05:00:00Z", "2030-01-01T5:00:00Z", "0000-01-01T00:00:00Z", "0000-02-29T00:00:00Z",
 	"1900-02-29T00:00:00Z", "2000-02-29T23:59:59Z", "2100-02-29T00:00:00Z", "9999-12-31T23:59:59Z", "9999-12-31T23:59:59.999999999Z",
@@ -548,8 +590,14 @@ func main() {
 			ins[k] = newBuf(f)
 		}
 		r := lib.NewRng(lib.Seed())
+		zoneMix := len(os.Args) > 5 && os.Args[5] == "zone"
+		{
+			// record the zone this process runs in (the plugin checks that TZ was honoured)
+			name, off := time.Now().Zone()
+			os.WriteFile(os.Args[2]+".zone", []byte(fmt.Sprintf("%s %d %s\n", name, off, time.Local.String())), 0o644)
+		}
 		var enum []string
-		if os.Getenv("VERIF_TIER") == "thorough" {
+		if os.Getenv("VERIF_TIER") == "thorough" && !zoneMix {
 			enum = enumDates()
 		}
 		total := n + len(corpus) + len(enum)
@@ -567,7 +615,11 @@ func main() {
 			emit(gcase{"enumerated", s})
 		}
 		for i := 0; i < n; i++ {
-			emit(genOne(r.Fork()))
+			if zoneMix {
+				emit(genZoneOne(r.Fork()))
+			} else {
+				emit(genOne(r.Fork()))
+			}
 		}
 		bw.close()
 		for _, b := range ins {
@@ -591,6 +643,8 @@ func main() {
 			fmt.Sscanf(c.Input.Hex, "%x", &s)
 		}
 		impl, lo, hi := runImpl(s)
+		zn, zo := time.Now().Zone()
+		fmt.Printf("host zone: %s (UTC%+d s)\n", zn, zo)
 		fmt.Printf("expires: %q\n", s)
 		fmt.Printf("impl:    %s   (VerifyLayoutExpiration; clock bracket %d .. %d ns)\n", impl, lo, hi)
 		fmt.Printf("parse:   %s   (time.Parse(ISO8601DateSchema, .))\n", runParse(s))
